@@ -48,6 +48,9 @@ class Scripter:
                 lines.append(self.line("other", self.rng.randrange(8), 1, sock))
             elif op == "ctlemptyout":
                 lines.append(self.line("ctlemptyout", None))
+            elif op in ("wire", "prehs"):
+                self.peer += 1
+                lines.append("%s k=%d p=%d" % (op, self.rng.randrange(520), self.peer))
             elif op == "ctlabort":
                 lines.append(self.line("ctlabort", self.rng.randrange(2)))
             elif op == "peerabort":
@@ -72,7 +75,7 @@ def run_driver(chk, beh, label, flavour="plain"):
         events = vlib.read_ndjson(trace)
         if rc not in (0, 3):
             # sanitizer abort or crash: report with the operations executed so far
-            kind = "sanitizer" if "Sanitizer" in out or "runtime error" in out else "killed-by-signal/SIGPIPE" if rc in (141, -13) else "crash-rc%d" % rc
+            kind = "sanitizer" if "Sanitizer" in out or "runtime error" in out else "killed-by-signal/SIGPIPE" if rc in (141, -13) else "killed-by-signal/%d" % (-rc if rc < 0 else rc - 128) if (rc < 0 or rc > 128) else "crash-rc%d" % rc
             if rc in (141, -13):
                 chk.report("C35.killed-by-signal/SIGPIPE", "the process hosting node and daemon was killed by SIGPIPE while a remote end disconnected", [str(e) for e in events[-6:]], replay_name="C35.sigpipe")
                 events_all += events
@@ -105,7 +108,7 @@ def run(chk):
     thorough = chk.tier == "thorough"
     r = vlib.mc("NodeInputs", "MC_NodeInputs.cfg", workers=2, timeout=300)
     chk.add_model("NodeInputs as coded (index validation, guarded key reconstruction, guarded control handler): C35_NoThrow", r)
-    for cfg in ("dev_noguard", "dev_nocontrolguard", "dev_sigpipe"):
+    for cfg in ("dev_noguard", "dev_nocontrolguard", "dev_sigpipe", "dev_unsafedecode"):
         vlib.mc("NodeInputs", "MC_NodeInputs_%s.cfg" % cfg, expect_violation="C35_NoThrow", workers=2, timeout=300)
     vlib.mc("NodeInputs", "MC_NodeInputs_reach_poisonchunk.cfg", expect_violation="Reach_PoisonThenChunk", workers=2, timeout=300)
     vlib.mc("NodeInputs", "MC_NodeInputs_reach_poisonfetch.cfg", expect_violation="Reach_PoisonHeldThenFetch", workers=2, timeout=300)
@@ -123,6 +126,13 @@ def run(chk):
             beh.append(base + [sc.line(op, arg, 1)])
     # the same through the node's own reader thread (frames over the adopted session)
     beh += [sc.from_hist(h, sock=1) for h in (hists if thorough else hists[:10])]
+    # structurally hostile encodings (extreme / wrapping length words, truncations): validly MACed over the session
+    # (driver thread and the node's reader thread) and unauthenticated to the transport listener before any handshake
+    NW = 520
+    step = 1 if thorough else 3
+    beh.append(["reset"] + ["wire k=%d p=7" % k for k in range(0, NW, step)])
+    beh.append(["reset"] + ["wire k=%d p=8 sock=1" % k for k in range(1, NW, step * 2)])
+    beh.append(["reset"] + ["prehs k=%d" % k for k in range(2, NW, step)] + ["prehs k=0 lenoverride=4294967295", "prehs k=0 lenoverride=0", "prehs k=1 lenoverride=70000"])
     run_driver(chk, beh, "tlc-sequences")
     if thorough:
         run_driver(chk, beh[: len(hists) + 60], "tlc-sequences-asan", flavour="asan")
